@@ -364,6 +364,12 @@ def monitor(scen, plan, kind, ref, out, resolver):
     """None when the run satisfies the property, else (key, text)"""
     status, events, points, dg = parse_out(out)
     m = ev_map(events)
+    ra = [t for t in events if t.startswith("RETRYARGS:")]
+    if ra:
+        nm_, chg = ra[0].split(":")[1], ra[0].split(":")[2]
+        return ("retry_args", "an interrupted %s() was retried with different arguments (same descriptor/buffer, length/flags %s)%s" %
+                (nm_, chg.replace("->", " -> 0x").join(["0x", ""]) if "->" in chg else chg,
+                 "" if status == "EXIT0" else "; the run then ended with %s" % status))
     if status == "ABORT":
         pc, api, last = abort_info(events)
         site, fs = resolver.site(pc) if pc else ("?", [])
